@@ -161,12 +161,12 @@ Lemma skip_while_ok : forall p, (forall b, p b = true -> is_ascii b = true) ->
   (forall b t, c_rest c' = b :: t -> p b = false).
 Proof.
   intros p Hp r. induction r as [|b t IH]; intros pos H; cbn [skip_while].
-  - cbn. repeat split; try assumption; try lia; intros; discriminate.
+  - split; [exact H|]. cbn. repeat split; try lia; intros; discriminate.
   - destruct (p b) eqn:E.
     + destruct (cur_ok_step _ _ _ _ H eq_refl (Hp _ E)) as [H' _].
       destruct (IH _ H') as (A & B & C & D).
       repeat split; try assumption; try lia. intros. lia.
-    + cbn. repeat split; try assumption; try lia.
+    + split; [exact H|]. cbn. repeat split; try lia.
       * intros b' t' Eq Pb. inversion Eq; subst. congruence.
       * intros b' t' Eq. inversion Eq; subst. exact E.
 Qed.
